@@ -317,6 +317,41 @@ def d4(ctx, prog):
         ctx.check(r[0] == 'raised', 'C12-D4', f'{f.key}::refuses {what} ({mx}, {mn})', f'{what} is not refused when no class set is declared ({r})', f'{what} is refused', f.where())
 
 
+def d5(ctx, prog):
+    """(a) class statistics never use the global trace count: traces whose value is not a declared class are skipped by the
+    accumulators but still counted in processed_traces, so a total / mean / degree of freedom taken from it makes undeclared
+    values influence the result;  (b) no search that assumes an order of the declared classes (searchsorted / bisect on the class
+    list): two lists with the same values in another order must designate the same classes."""
+    PART = 'scared.distinguishers.partitioned'
+    n = 0
+    base = prog.need_class(PART, 'PartitionedDistinguisherMixin')
+    funcs = [prog.resolve_method(base, '_compute')] + [ci.methods['_compute_metric'] for ci in prog.subclasses_of(base, strict=True) if '_compute_metric' in ci.methods]
+    mia = prog.classes.get('scared.distinguishers.mia:MIADistinguisherMixin')
+    if mia is not None:
+        funcs += [f for f in (prog.resolve_method(mia, '_compute'), prog.resolve_method(mia, '_compute_pdf')) if f is not None]
+    for f in funcs:
+        if f is None:
+            continue
+        n += 1
+        uses = [x for x in ast.walk(f.node) if isinstance(x, ast.Attribute) and norm(x) == 'self.processed_traces']
+        ctx.check(not uses, 'C12-D5', f'{f.key}::global trace count', f'{f.qualname} uses self.processed_traces: it counts the traces of undeclared values too, so those traces change the class statistics',
+                  'class statistics use the class counters only', f.where(uses[0]) if uses else f.where())
+    for f in prog.funcs:
+        if not f.mod.name.startswith('scared.distinguishers'):
+            continue
+        for c in ast.walk(f.node):
+            if isinstance(c, ast.Call) and norm(c.func).split('.')[-1] in ('searchsorted', 'bisect', 'bisect_left', 'bisect_right', 'digitize') and c.args:
+                recv = c.func.value if isinstance(c.func, ast.Attribute) and norm(c.func.value) not in ('_np', 'np', 'numpy', 'bisect') else c.args[0]
+                names = {x.id for x in ast.walk(recv) if isinstance(x, ast.Name)}
+                defs = {s_.targets[0].id: s_.value for s_ in ast.walk(f.node) if isinstance(s_, ast.Assign) and len(s_.targets) == 1 and isinstance(s_.targets[0], ast.Name)}
+                txt = norm(recv) + ' ' + ' '.join(norm(defs[x]) for x in names if x in defs)
+                if 'partitions' in txt:
+                    n += 1
+                    ctx.fail('C12-D5', f'{f.key}::{norm(c)[:80]}', f'`{norm(c)[:70]}` searches the declared classes assuming they are sorted: a class list in another order '
+                             f'designates other classes (or none)', f.where(c))
+    return n
+
+
 def run(ctx, prog):
     ctx.rule('C12-D1', 'lookup table: -1 fill, table[values[i]] = i over all declared values, plain table[x] lookup; _accumulate receives the lookup output on every accepted path')
     ctx.rule('C12-D2', 'sentinel-capable values are guarded before index use; template rows are selected by class position')
@@ -345,6 +380,8 @@ def run(ctx, prog):
                       f'lookup built from {args}, not from self.partitions', 'lookup built from self.partitions', f.where(st))
     n3 = d3(ctx, prog)
     d4(ctx, prog)
+    ctx.rule('C12-D5', 'class statistics never read the global trace count; no order-assuming search (searchsorted / bisect) over the declared classes')
+    ctx.floor('class-statistic functions checked for the global count', d5(ctx, prog), 4)
     ctx.floor('update/accumulate pairs', n1, 3)
     ctx.floor('kernels receiving lookup output', n_k, 5)
     ctx.floor('template row selections', n_t, 2)
